@@ -99,6 +99,7 @@ func windowScenario(c *sup.Ctx, r *rng.R, props []string) {
 			runs := []run{
 				{"Update", func(k string) (conc.WindowResult, string) { return conc.UpdateWindow(b, k, pre, rival) }},
 				{"WriteUpdateWithXattrs", func(k string) (conc.WindowResult, string) { return conc.WriteUpdateWindow(b, k, pre, rival) }},
+				{"Update(delete)", func(k string) (conc.WindowResult, string) { return conc.UpdateDeleteWindow(b, k, pre, rival) }},
 				{"WriteSubDoc@0", func(k string) (conc.WindowResult, string) { return conc.SubdocWindow(b, k, pre, rival, false, false) }},
 				{"SubdocInsert@0", func(k string) (conc.WindowResult, string) { return conc.SubdocWindow(b, k, pre, rival, false, true) }},
 			}
